@@ -46,7 +46,7 @@ static void check(const Var& v, const RV& r, int depth)
 	case T_NUL: vp_assert(v.type() == Var::NUL, "NUL reported"); break;
 	case T_INT: vp_assert(v.type() == Var::INT && (int)v == r.i && v.is(Var::NUMBER), "int type and value reported"); break;
 	case T_BOOL: vp_assert(v.type() == Var::BOOL && (bool)v == (r.i != 0), "bool type and value reported"); break;
-	case T_NUM: vp_assert(v.type() == Var::NUMBER && (double)v == r.d, "double type and value reported"); break;
+	case T_NUM: vp_assert(v.is(Var::NUMBER) && (double)v == r.d, "number type and value reported"); break;
 	case T_STR: vp_assert(v.type() == Var::STRING && v.is(Var::STRING) && strcmp(*v, r.s) == 0 && v.length() == (int)strlen(r.s), "string type, text and length reported"); break;
 	case T_ARR: { const RC& c = pool[r.c]; vp_assert(v.type() == Var::ARRAY && v.length() == c.n, "array type and length reported");
 		if (depth < 3) for (int i = 0; i < c.n && i < v.length(); i++) check(v[i], c.el[i], depth + 1); break; }
@@ -90,7 +90,7 @@ extern "C" void h_hist(void)
 		for (int i = 0; i < 3; i++) fresh(vp_param(1 + i), x[i], r[i]);
 		for (int i = 0; i < 3; i++) check(x[i], r[i], 0);
 		for (int s = 0; s < nops; s++) {
-			int op = vp_concretize(vp_range(0, 9));
+			int op = vp_concretize(vp_range(0, 12));
 			vp_assume((mask >> op) & 1);
 			int a = vp_concretize(vp_range(0, 2)), b = vp_concretize(vp_range(0, 2));
 			switch (op) {
@@ -114,6 +114,25 @@ extern "C" void h_hist(void)
 				vp_assert((x[b] == x[a]) == e, "operator== is symmetric");
 				vp_assert((x[a] == x[a]) == req(r[a], r[a]), "a value equals itself (unless it is or contains an undefined Var)");
 				vp_assert((x[a] != x[b]) == !e, "operator!= is the negation"); break; }
+			case 10: { // direct assignment of a C string / String of a boundary length to whatever x[a] holds
+				static const int LEN[6] = { 0, 3, 7, 8, 9, 20 };
+				int L = LEN[vp_concretize(vp_range(0, 5))]; char t[24]; for (int i = 0; i < L; i++) t[i] = 'a' + i; if (L) t[L - 1] = lastch(); t[L] = 0;
+				if (nondet_bool()) x[a] = (const char*)t; else x[a] = String(t);
+				r[a] = rnone(); r[a].tag = T_STR; strcpy(r[a].s, t); break; }
+			case 11: { // direct assignment of scalars
+				int k = vp_concretize(vp_range(0, 3)); r[a] = rnone();
+				if (k == 0) { int v = (int)nondet_u32(); x[a] = v; r[a].tag = T_INT; r[a].i = v; }
+				else if (k == 1) { bool v = nondet_bool() != 0; x[a] = v; r[a].tag = T_BOOL; r[a].i = v; }
+				else if (k == 2) { unsigned v = nondet_u32(); x[a] = v; if (v < 2147483648u) { r[a].tag = T_INT; r[a].i = (int)v; } else { r[a].tag = T_NUM; r[a].d = v; } }
+				else { float f = 1.5f; x[a] = f; r[a].tag = T_NUM; r[a].d = f; }
+				break; }
+			case 12: { // mutation of a nested container (second level)
+				vp_assume(r[a].tag == T_ARR && scalar(r[b]) && a != b); RC& c = pool[r[a].c]; vp_assume(c.n > 0);
+				int i = vp_concretize(vp_range(0, c.n - 1)); RV& e = c.el[i];
+				vp_assume(e.tag == T_ARR || e.tag == T_OBJ); RC& ic = pool[e.c];
+				if (e.tag == T_ARR) { vp_assume(ic.n > 0); x[a][i][0] = x[b]; ic.el[0] = r[b]; }
+				else { x[a][i][String("k")] = x[b]; rset(ic, "k") = r[b]; }
+				break; }
 			case 9: { if (r[a].tag == T_ARR) { RC& c = pool[r[a].c]; vp_assume(c.n > 0); int i = vp_concretize(vp_range(0, c.n - 1)); x[a].removeAt(i); for (int j = i; j + 1 < c.n; j++) c.el[j] = c.el[j + 1]; c.n--; }
 				else { vp_assume(r[a].tag == T_OBJ); RC& c = pool[r[a].c]; vp_assume(c.n > 0); int i = vp_concretize(vp_range(0, c.n - 1)); x[a].remove(c.key[i]);
 					for (int j = i; j + 1 < c.n; j++) { c.el[j] = c.el[j + 1]; memcpy(c.key[j], c.key[j + 1], 4); } c.n--; } break; }
